@@ -64,6 +64,27 @@ def guard_label(test, selfname, extra=(), fnode=None):
     return 'false' if val else 'true'
 
 
+def _can_raise(st, kind):
+    """Can evaluating the node's own expression raise?  (binding a constant or a plain name to a local cannot)"""
+    if st is None:
+        return False
+    if kind in ('if', 'while'):
+        e = st.test
+    elif kind == 'for':
+        e = st.iter
+    elif kind in ('try', 'except', 'break', 'continue', 'def'):
+        return False
+    else:
+        e = st
+    if isinstance(e, ast.Assign) and all(isinstance(t, ast.Name) for t in e.targets):
+        e = e.value
+    if isinstance(e, ast.Pass):
+        return False
+    return any(isinstance(x, (ast.Call, ast.Subscript, ast.Attribute, ast.BinOp, ast.Compare, ast.Starred, ast.Assert, ast.Delete,
+                              ast.Import, ast.ImportFrom, ast.Yield, ast.YieldFrom, ast.Await, ast.UnaryOp))
+               for x in ast.walk(e)) or isinstance(e, (ast.Tuple,)) and False
+
+
 class Announcer(object):
     def __init__(self, ctx, func, depth=1):
         self.ctx = ctx
@@ -146,12 +167,25 @@ class Announcer(object):
                 if lab:
                     pruned.add((n, lab))
         results = []
+        pruned0 = pruned
         for w in W:
             stmt_txt = norm(node_expr(cfg, w))
             if exceptions and id(cfg.stmt[w]) in exceptions:
                 self.ctx.exception(rule, '%s `%s`' % (f.construct, stmt_txt), exceptions[id(cfg.stmt[w])])
                 continue
-            path = cfg.path_avoiding(w, EXIT, avoid=set(B) - {w}, labels_excluded=('exc', 'raise'), pruned_edges=pruned)
+            # an exception caught by a handler of this function is an ordinary way on (`try: i = xs.index(old) ... except
+            # ValueError: pass`); not followed: the write itself failing (then nothing was written) and statements that cannot
+            # raise (`flag = True`)
+            pruned = set(pruned0)
+            for n in cfg.nodes():
+                for (s_, lab_) in cfg.succ[n]:
+                    if lab_ == 'exc' and (n == w or cfg.kind[s_] != 'except' or not _can_raise(cfg.stmt[n], cfg.kind[n])):
+                        pruned.add((n, s_, lab_))
+            path = cfg.path_avoiding(w, EXIT, avoid=set(B) - {w}, labels_excluded=('raise',), pruned_edges=pruned)
+            if path is not None:
+                # is it a path that can be taken?  (dirty flags, remembered tests: the booleans are followed along the path)
+                path = cfg.feasible_path(w, EXIT, avoid=set(B) - {w}, labels_excluded=('raise',), pruned_edges=pruned,
+                                         assumed=self._assumed(extra_guards))
             ok = path is None and bool(B)
             self.ctx.ob(rule, '%s `%s` -> %s' % (construct or f.construct, stmt_txt, message),
                         '%s is announced by %s on every path (only hub-presence guards may skip it)' % (what_write, message),
@@ -163,6 +197,17 @@ class Announcer(object):
                         where=where(f, cfg.stmt[w]), path=cfg.guards_on_path(path) if path else None)
             results.append(ok)
         return W, B
+
+    def _assumed(self, extra=()):
+        """{test text: outcome} of the conditions under which an announcement is due at all (a hub is there, ...)."""
+        out = {}
+        for a in [x.replace('self', self.selfname or 'self') for x in HUB_ATOMS] + list(extra):
+            a = a.strip()
+            if a.startswith('not '):
+                out[a[4:].strip()] = False
+            else:
+                out[a] = True
+        return out
 
     def no_spurious(self, rule, writes, message, flag=None, exception=None):
         """Every broadcast of ``message`` is dominated by a write (or by a loop that holds one), or guarded by a
@@ -188,6 +233,10 @@ class Announcer(object):
         for b, call in B:
             ok = any(cfg.dominates(w, b, self.dom) for w in cands)
             how = ''
+            if not ok and cfg.feasible_path(ENTRY, b, avoid=cands) is None:
+                # no path that can be taken reaches the broadcast without passing a write (flags followed along the path)
+                ok = True
+                how = ' (path-sensitive)'
             if not ok and exception:
                 self.ctx.exception(rule, '%s -> %s' % (f.construct, message), exception)
                 continue
